@@ -5,6 +5,7 @@ import Driver.C10
 import Driver.C15
 import Driver.C16
 import Driver.World
+import Driver.C08
 open Lean Nutree Driver
 
 def handlers : List (St → String → Json → Option (E Json)) := [handleC06, handleC09, handleC10, handleC15, handleC16]
@@ -17,7 +18,7 @@ def dispatch (st : St) (j : Json) : St × Json :=
     | .ok l => ({ st with pool := l.toArray }, Json.mkObj [("ok", .num l.length)])
     | .error e => (st, Json.mkObj [("fail", .str e)])
   | .ok op =>
-    match handleWorld st op j with
+    match (handleWorld st op j).orElse (fun _ => handleC08 st op j) with
     | some (Except.ok (st', r)) => (st', r)
     | some (Except.error e) => (st, Json.mkObj [("fail", .str e)])
     | none =>
